@@ -40,12 +40,14 @@ type Config struct {
 	SliceOnly     bool
 	FallbackTimeoutS int
 	DumpPaths     string
+	XCheckEvery   int // every n-th solver-decided query is re-decided by two other solvers (0 = off)
+	XCheckMax     int // at most this many sampled queries per worker
 }
 
 func defaultConfig() Config {
 	return Config{MaxInstr: 3_000_000, MaxDecisions: 20000, MaxDepth: 400, MaxAlloc: 1 << 20, MaxFork: 64, MaxSymIndex: 512,
 		MaxPaths: 5_000_000, MaxGoroutines: 8, MaxSchedSteps: 2000, Preempt: 2, Race: true, MapOrder: "two", Workers: 16,
-		QueryTimeoutMs: 8000, Params: map[string]int64{}, MaxViolations: 50, Witnesses: 12, WitnessEvery: 37, MaxCache: 3000000, FallbackTimeoutS: 120}
+		QueryTimeoutMs: 8000, Params: map[string]int64{}, MaxViolations: 50, Witnesses: 12, WitnessEvery: 37, MaxCache: 3000000, FallbackTimeoutS: 120, XCheckEvery: 23, XCheckMax: 12}
 }
 
 type Explorer struct {
@@ -100,6 +102,7 @@ type Explorer struct {
 	cacheHits int64
 	witnessTick int64
 	valDur time.Duration
+	xsamples []xsample
 }
 
 type Witness struct {
@@ -129,6 +132,8 @@ type Worker struct {
 	coreHits, poolHits int64
 	cacheHits int64
 	funcs     map[*ssa.Function]bool
+	xsamples  []xsample
+	xseen     int64
 }
 
 func (ex *Explorer) push(v []Dec) {
@@ -572,6 +577,7 @@ func (ex *Explorer) Explore() error {
 		ex.cacheHits += w.cacheHits
 		ex.coreHits += w.coreHits
 		ex.poolHits += w.poolHits
+		ex.xsamples = append(ex.xsamples, w.xsamples...)
 		if os.Getenv("GOSYM_GROUPS") != "" {
 			fmt.Fprintf(os.Stderr, "worker %d: misses by #groups %v hits %d\n", w.id, w.missByRoots[:6], w.cacheHits)
 		}
